@@ -1300,10 +1300,7 @@ impl<'arena> PrettyFormatter<'arena> {
                 | Ok(None) | Err(_) => match &self.arena.terms[inner] {
                     // A commentless hole payload collapses into the parenthesized sugar.
                     // A commented hole keeps the bracket form so its comments survive.
-                    | Term::Hole(_)
-                        if self.arena.trivia.leading_comments((*inner).into()).is_empty()
-                            && self.arena.trivia.trailing_comments((*inner).into()).is_empty() =>
-                    {
+                    | _ if self.is_commentless_hole_payload(*inner) => {
                         RcDoc::text("@(")
                             .append(RcDoc::text(meta.to_string()))
                             .append(RcDoc::text(")"))
@@ -1619,6 +1616,29 @@ impl<'arena> PrettyFormatter<'arena> {
 
     /// A comment before a constructor argument must not touch the constructor
     /// name: `-` and `'` continue an identifier, so `+C-- c` would lex as a name.
+    /// Whether a metadata payload prints as a bare `_`: a hole, possibly inside
+    /// singleton groups that minimal parenthesization removes. Deciding the sugar
+    /// on the hole alone would need a second formatting to reach `@(meta)`.
+    fn is_commentless_hole_payload(&self, payload: TermId) -> bool {
+        let mut current = payload;
+        loop {
+            if !self.arena.trivia.leading_comments(current.into()).is_empty()
+                || !self.arena.trivia.trailing_comments(current.into()).is_empty()
+            {
+                return false;
+            }
+            match &self.arena.terms[&current] {
+                | Term::Hole(_) => return true,
+                | Term::Paren(Paren(terms))
+                    if self.options.parentheses == Parentheses::Minimal && terms.len() == 1 =>
+                {
+                    current = terms[0];
+                }
+                | _ => return false,
+            }
+        }
+    }
+
     fn constructor_comment_gap(&self, argument: EntityId) -> RcDoc<'arena> {
         // The argument's own group may be elided, so its first comment can
         // belong to a singleton group nested inside it.
